@@ -122,6 +122,21 @@ func c14Gen(t *rapid.T) c14Scenario {
 		}
 		sc.Ops = append(sc.Ops, op)
 	}
+	if rapid.IntRange(0, 3).Draw(t, "lifecycle") == 0 {
+		// an account that is used, deleted, made again with another password and then tried with the old and the new one
+		u := rapid.SampledFrom([]int{0, 1, 2, 3}).Draw(t, "lc_user")
+		p1 := rapid.SampledFrom([]int{0, 1, 2, 3}).Draw(t, "lc_pw1")
+		p2 := rapid.SampledFrom([]int{4, 5, 6}).Draw(t, "lc_pw2")
+		mech := rapid.SampledFrom([]string{"plain", "login"}).Draw(t, "lc_mech")
+		second := rapid.SampledFrom([]string{"create", "setpw"}).Draw(t, "lc_second")
+		lc := []c14Op{{Kind: "create", User: u, Pw: p1}, {Kind: mech, User: u, Pw: p1}, {Kind: "delete", User: u}, {Kind: "create", User: u, Pw: p2}}
+		if second == "setpw" {
+			lc = []c14Op{{Kind: "create", User: u, Pw: p1}, {Kind: mech, User: u, Pw: p1}, {Kind: "setpw", User: u, Pw: p2}}
+		}
+		lc = append(lc, c14Op{Kind: mech, User: u, Pw: p1}, c14Op{Kind: mech, User: u, Pw: p2})
+		at := rapid.IntRange(0, len(sc.Ops)).Draw(t, "lc_at")
+		sc.Ops = append(append(append([]c14Op(nil), sc.Ops[:at]...), lc...), sc.Ops[at:]...)
+	}
 	return sc
 }
 
